@@ -68,7 +68,8 @@ Definition finished (s : sim) : bool :=
 (* ---------- battle case ----------
    [M; R; W; P; C; flags; maxsteps; nw; (len; start; off; 6*len numbers)*nw]
    flags: bit0 reports, bit1 also Run() on a fresh simulator, bit2 per-cycle core sums,
-          bit3 full core dumps, bit4 core dump after every cycle *)
+          bit3 full core dumps, bit4 core dump after every cycle,
+          bit5 (harness only) attach a StateRecorder, bit6 a second battle after Reset on the same simulator *)
 Record bwarrior := mkBW { bw_code : list instr; bw_start : Z; bw_off : N }.
 Definition rd_bwarrior : rd bwarrior := fun l =>
   match l with
@@ -134,25 +135,51 @@ Fixpoint step_loop (fl : Z) (k : nat) (s : sim) (out : list (list Z)) : sim * li
 
 Definition enc_bools (l : list bool) : list Z := map (fun b : bool => if b then 1 else 0) l.
 
+(* one stepped battle on simulator s: per-cycle records, final observables, optional dump *)
+Definition stepped (bc : bcase) (s : sim) (out : list (list Z)) : option sim * list (list Z) :=
+  let fl := bc_flags bc in
+  let '(s1, out1) := step_loop fl (bc_maxsteps bc) s out in
+  if existsb (fun r => match r with [9; 1] => true | _ => false end) out1 then (None, out1)
+  else (Some s1, out1 ++ [[5] ++ observe (flag fl 2) s1]
+                      ++ (if flag fl 3 then [[6] ++ dump_core s1] else [])).
+
+(* spawn again on a simulator that already holds the warriors (after Reset) *)
+Definition respawn (bc : bcase) (s : sim) : option sim * list (list Z) :=
+  spawn_all s 0 (bc_ws bc) [].
+
 Definition run_bcase (bc : bcase) : list (list Z) :=
     let fl := bc_flags bc in
     match setup bc with
     | (None, out) => out
     | (Some s, out) =>
-      let '(s1, out1) := step_loop fl (bc_maxsteps bc) s out in
-      if existsb (fun r => match r with [9; 1] => true | _ => false end) out1 then out1 else
-      let out2 := out1 ++ [[5] ++ observe (flag fl 2) s1]
-                       ++ (if flag fl 3 then [[6] ++ dump_core s1] else []) in
-      if flag fl 1 then
-        match run (S (S (N.to_nat (s_cycles s)))) s with
-        | RunPanic => out2 ++ [[7; 2]]
-        | RunOutOfFuel => out2 ++ [[7; 3]]
-        | RunOk s2 None => out2 ++ [[7; 1]]
-        | RunOk s2 (Some bs) =>
-            out2 ++ [[7; 0] ++ enc_bools bs] ++ [[8] ++ observe (flag fl 2) s2]
-                 ++ (if flag fl 3 then [[10] ++ dump_core s2] else [])
-        end
-      else out2
+      match stepped bc s out with
+      | (None, out1) => out1
+      | (Some s1, out1) =>
+        (* bit6: a second battle on the same simulator after Reset and re-spawn *)
+        let again :=
+            if flag fl 6 then
+              match respawn bc (fst (reset s1)) with
+              | (None, o) => (false, [[12]] ++ o)
+              | (Some s3, o) =>
+                match stepped bc s3 ([[12]] ++ o) with
+                | (None, o2) => (false, o2)
+                | (Some _, o2) => (true, o2)
+                end
+              end
+            else (true, []) in
+        let out2 := out1 ++ snd again in
+        if negb (fst again) then out2 else
+        if flag fl 1 then
+          match run (S (S (N.to_nat (s_cycles s)))) s with
+          | RunPanic => out2 ++ [[7; 2]]
+          | RunOutOfFuel => out2 ++ [[99]]
+          | RunOk s2 None => out2 ++ [[7; 1]]
+          | RunOk s2 (Some bs) =>
+              out2 ++ [[7; 0] ++ enc_bools bs] ++ [[8] ++ observe (flag fl 2) s2]
+                   ++ (if flag fl 3 then [[10] ++ dump_core s2] else [])
+          end
+        else out2
+      end
     end.
 
 Definition run_battle (l : list Z) : list (list Z) :=
